@@ -94,11 +94,13 @@ def programs(draw, tier):
         return {"op": "construct", "type": t, "n": draw(st.integers(2, 3)), "nh": draw(st.integers(1, 3)), "na": draw(st.integers(1, 2))}
     ops = [cons()]
     for _ in range(draw(st.integers(1, 7))):
-        k = draw(st.sampled_from(["construct", "reinit", "sample", "sample", "statistics", "fit", "fit", "save_autoload", "sample_from_space", "make_unitaries", "metrics"]))
+        k = draw(st.sampled_from(["construct", "reinit", "sample", "sample", "statistics", "fit", "fit", "save_autoload", "sample_from_space", "make_unitaries", "metrics", "aborted_fit", "long_chains"]))
         if k == "construct":
             ops.append(cons())
         elif k in ("sample", "sample_from_space"):
             ops.append({"op": k, "k": draw(st.integers(0, 3)), "m": draw(st.integers(1, 5))})
+        elif k == "long_chains":
+            ops.append({"op": k, "k": draw(st.sampled_from([33, 40, 70]))})          # time axis: chains of more than 32 Gibbs steps, sampled twice in a row
         elif k == "statistics":
             ops.append({"op": k, "obs": draw(st.lists(st.sampled_from(OBSN), min_size=1, max_size=2, unique=True)), "system": draw(st.booleans()),
                         "num_samples": draw(st.integers(2, 8)), "num_chains": draw(st.integers(0, 4)), "burn_in": draw(st.integers(0, 2)), "steps": draw(st.integers(0, 2)),
@@ -201,6 +203,17 @@ def run_program(ops, seed, tmp, form="explicit", shared_cb=None):
             outs.append(params_flat(state))
         elif k == "metrics":
             outs.append(metric_values(state))
+        elif k == "aborted_fit":
+            # a training run aborted by an exception from a user callback (caught by the script); what follows stays reproducible and the
+            # fits that follow really train
+            data, bases = train_data(state.num_visible, 4)
+            gen.abort_a_fit(state, data, bases if len(state.networks) > 1 else None, hook="on_epoch_end")
+            before_ = params_flat(state)
+            state.fit(data, epochs=1, pos_batch_size=2, lr=0.05, **({"input_bases": bases} if len(state.networks) > 1 else {}))
+            require(not torch.equal(params_flat(state), before_), "fit-after-aborted-fit:no-training", "a fit() that follows a fit() aborted by an exception (caught) did not change any parameter")
+            outs.append(params_flat(state))
+        elif k == "long_chains":
+            outs.append([state.sample(op["k"], num_samples=3).clone(), state.sample(op["k"], num_samples=3).clone()])
         elif k == "make_unitaries":
             # building a dictionary of unitaries (operators given as nested lists / arrays / tensors) is a pure function of its arguments: what
             # is sampled afterwards must not depend on it having happened
